@@ -24,6 +24,7 @@ import (
 	"github.com/go-ap/activitypub/verifsim"
 
 	"verif.local/sim/core"
+	_ "verif.local/sim/props/c13"
 	_ "verif.local/sim/props/c19"
 )
 
